@@ -93,6 +93,16 @@ class C03Monitor(Monitor):
                        % (a.aid, kind, rs[2], n, " (+%d failed evaluation(s))" % len(failed) if failed else ""), kind)
         if kind != "solve":
             return
+        if any(lf[3] == a.op_no for lf in a.fired_lfaults):
+            return            # this Solve was cut short by a failing listener of the user: no stop-index clause
+        retry_after_first_eval_failure = False
+        if failed and all(c.idx == 1 for c in failed) and len(failed) == 1 and failed[0].op_no != a.op_no:
+            failed = []       # only the very first evaluation failed, once, in an EARLIER call: nothing had been recorded, this
+            #                   Solve starts the run again and must be the fault-free run (the failed evaluation may or may not
+            #                   have been charged to the budget: both are accepted)
+            retry_after_first_eval_failure = True
+            if int(a.params["itersLimit"]) <= 1:
+                return        # (a budget of one may legitimately be considered spent by the failed evaluation)
         if failed and not outcome.get("raised") and not a.solve_info[-1]["over_budget"]:
             # fault configuration: the stop index is not predicted (the failed iteration lost its interval), but the
             # budget still binds - a Solve never takes the number of trials beyond max(itersLimit, trials before it)
@@ -129,6 +139,9 @@ class C03Monitor(Monitor):
                    "(eps=%r, itersLimit=%d, min subdivided length=%r)" % (a.aid, n, eps, lim, a.model.min_chosen()), "Solve")
             return
         expect = max(pre, tstar)
+        if retry_after_first_eval_failure and tstar >= lim and n == max(pre, lim - 1) and lim >= 2:
+            self.probe["retry_budget_charged_for_failed_evaluation"] = self.probe.get("retry_budget_charged_for_failed_evaluation", 0) + 1
+            return
         if n != expect:
             w.flag(self.prop, "stopped_late" if n > expect else "stopped_early",
                    "%s: Solve ended with %d global trials, criterion first holds at %d (pre=%d eps=%r itersLimit=%d)"
